@@ -1952,12 +1952,12 @@ func outgoingFromIncoming(incomingAmt lnwire.MilliSatoshi,
 	// We compute the test amount in terms of big.Int to be safe from
 	// overflows and to be consistent later calculations.
 	// testAmtF := A*m + n =
-	// = A + Bo + Bi + (PPM*(A*Ri + A*Ro + Ro*Ri) + A*Ri*Ro)/(PPM*PPM)
+	// = A + Bo + Bi + (PPM*(A*Ri + A*Ro + Bo*Ri) + A*Ri*Ro)/(PPM*PPM)
 
-	// Compute terms in (A*Ri + A*Ro + Ro*Ri).
+	// Compute terms in (A*Ri + A*Ro + Bo*Ri).
 	t1 := new(big.Int).Mul(A, Ri)
 	t2 := new(big.Int).Mul(A, Ro)
-	t3 := new(big.Int).Mul(Ro, Ri)
+	t3 := new(big.Int).Mul(Bo, Ri)
 
 	// Sum up terms t1-t3.
 	t4 := big.NewInt(0)
@@ -1965,14 +1965,14 @@ func outgoingFromIncoming(incomingAmt lnwire.MilliSatoshi,
 	t4.Add(t4, t2)
 	t4.Add(t4, t3)
 
-	// Compute PPM*(A*Ri + A*Ro + Ro*Ri).
+	// Compute PPM*(A*Ri + A*Ro + Bo*Ri).
 	t6 := new(big.Int).Mul(PPM, t4)
 
 	// Compute A*Ri*Ro.
 	t7 := new(big.Int).Mul(A, Ri)
 	t7.Mul(t7, Ro)
 
-	// Compute (PPM*(A*Ri + A*Ro + Ro*Ri) + A*Ri*Ro)/(PPM*PPM).
+	// Compute (PPM*(A*Ri + A*Ro + Bo*Ri) + A*Ri*Ro)/(PPM*PPM).
 	num := new(big.Int).Add(t6, t7)
 	denom := new(big.Int).Mul(PPM, PPM)
 	fraction := new(big.Int).Div(num, denom)
